@@ -68,6 +68,26 @@ def infeasible(ctx, n):
             hor = {"w": 7, "d": 1}[ap["dur"][0]] * ap["dur"][1]
             nd["start"] = ap["start"] - ap["start"] % 86400 + (hor - rng.choice([0, 1, 2, 3])) * 86400 + rng.choice([0, 9, 16]) * 3600
             nd["effort"] = rng.choice([2400, 4800, 480])
+        if "effort" in nd and len(leaves) >= 2 and not ap.get("alap") and rng.random() < 0.12:
+            # the predecessor of an edge with a maximum gap has more work than the horizon holds (by its size or behind a
+            # long shutdown): the backward estimate for maxgapduration must give up, not run off the tables
+            q, nq = rng.choice([x for x in leaves if x[0] != p])
+            if not any(tuple(d["to"]) == q for d in nd.get("deps", []) or []):
+                nq.setdefault("deps", []).append({"to": list(p), "style": "abs", "maxgap": rng.choice([60, 480])})
+                if rng.random() < 0.5:
+                    nd["effort"] = 60 * rng.choice([30000, 50000])
+                else:
+                    ap["vac"].append((ap["start"], ap["start"] + 900 * 86400))
+        if rng.random() < 0.1:
+            # a resource with hours of its own and a time zone string that names no zone, or is not even a well-formed key
+            rn = [r for _, r in projects.walk(ap["resources"]) if "kids" not in r]
+            if rn:
+                z = rng.choice(rn)
+                z.pop("shift", None)
+                z["hours"] = [(d, [((8, 0), (16, 0))]) for d in range(5)]
+                z["tz"] = rng.choice(["Mars/Olympus_Mons", "/usr/share/zoneinfo/Europe/Berlin", "Asia//Tokyo", "America/New_York/", "../etc/passwd", "UTC+25", ""])
+                if not z["tz"]:
+                    del z["tz"]
         if k != 8 and rng.random() < 0.25:
             # project lengths in every unit the header grammar accepts (hours and minutes included)
             ap["dur"] = rng.choice([("h", 36), ("h", 2000), ("min", 90), ("y", 1), ("m", 2), ("d", 3), ("w", 1)])
